@@ -1,9 +1,10 @@
 #!/bin/bash
-# tools/try_all_seeded.sh: re-validate every kept seeded change against the current /repo HEAD (scratch worktree)
+# tools/try_all_seeded.sh: re-validate every kept seeded change against the current /repo HEAD (scratch worktree).
+# The checks to run are meta.json's "caught_by" (default: the property the change was made for).
 cd /verif
 for d in seeded/*/; do
   n=$(basename $d); id=${n%%_*}
-  ids=$id; [ $id = C08 ] && ids="C08 C09"; [ $id = C09 ] && ids="C09 C08"
+  ids=$(/venv/bin/python -c "import json,sys; m=json.load(open('$d/meta.json')); print(' '.join(m.get('caught_by',[m.get('property','$id')])))")
   echo "##### $n"
   tools/try_mutant.sh /verif/seeded/$n $ids 2>&1 | grep -E "^rc=|^== |^VIOLATION|quick:|patch does not apply" | cut -c1-220
 done
